@@ -33,6 +33,7 @@ def run(rep, prog, tier):
     check_verify_wiring(rep, prog)
     check_material_verify(rep, prog)
     verdict.check_fail_closed(rep, prog, 'C01.4')
+    verdict.check_crypto_arm_verdict(rep, prog, 'C01.2')
     verdict.check_mask_contains(rep, prog, 'C01.4', ['WrongSig'])
 
 
